@@ -243,6 +243,47 @@ class _MirrorProxy:
             return self._o.site(func, node, "self.__parent.__children.remove(self) when linked (guards that raise come first)")
         return self._o.refute(func, node, construct, msg)
 
+    def undecided(self, func, node, construct, msg):
+        if construct == 're-rooting' and func is not None and func.qual == SETTERS['parent']:
+            st = self._reroot_by_assignment(func)
+            if st is not None:
+                self._o.site(func, st, "parent = None on a member re-roots it under the WBS root task (the root task is assigned as parent: the "
+                                       "setter runs again with it, unlinks, stores, attaches and appends)")
+                return self._o.site(func, func.node, "detached task: parent = None")
+        return self._o.undecided(func, node, construct, msg)
+
+    def _reroot_by_assignment(self, f):
+        """`self.parent = <self.__wbs._root()>` under `parent is None` and `self.__wbs is not None` (what `root.children.append(self)`
+        does inside the facade), next to a plain `self.__parent = None` for the detached task"""
+        prog = self._ctx.prog
+        s = f.self_name
+        p = [x for x in f.params if x != s][0]
+        cfg = cfg_of(f)
+        ex = Expander(prog, f, self._ctx.typer, inline=False)
+        hits = []
+        for st, tgt, val in facts.attr_stores(f, 'parent'):
+            if not (isinstance(tgt.value, ast.Name) and tgt.value.id == s) or cfg.node_of(st) is None:
+                continue
+            v = ex.expand(val, cfg.node_of(st))
+            if not (match(f"{s}._Task__wbs._root()", v) or match(f"{s}.wbs._root()", v)):
+                return None
+            conds = facts.node_conditions(prog, f, st, self._ctx.typer, expand=True)
+            if not (any(facts.cond_is(t, q, f"{p} is None", True) is not None for t, q in conds) and
+                    any(facts.cond_is(t, q, f"{s}._Task__wbs is None", False) is not None or
+                        facts.cond_is(t, q, f"{s}.wbs is None", False) is not None for t, q in conds)):
+                return None
+            hits.append(st)
+        if len(hits) != 1:
+            return None
+        none_stores = [st for st, tgt, val in facts.attr_stores(f, '_Task__parent') if isinstance(val, ast.Constant) and val.value is None and
+                       isinstance(tgt.value, ast.Name) and tgt.value.id == s]
+        for st in none_stores:
+            conds = facts.node_conditions(prog, f, st, self._ctx.typer, expand=True)
+            if not any(facts.cond_is(t, q, f"{s}._Task__wbs is None", True) is not None or
+                       facts.cond_is(t, q, f"{s}.wbs is None", True) is not None for t, q in conds):
+                return None
+        return hits[0] if none_stores else None
+
     def _only_residues(self, f, call) -> bool:
         prog = self._ctx.prog
         cfg = cfg_of(f)
@@ -643,7 +684,8 @@ def intersection(ctx, o):
     from .c05_util import check_intersection, check_collect_subtree
     from .c05_util import id_helpers
     check_collect_subtree(ctx, o, id_helpers(ctx.prog)[1] or ctx.prog.func('task._collect_subtree'))
-    check_intersection(ctx, o, ctx.prog.func('task._has_id_intersection'))
+    from .c05_util import id_test_func
+    check_intersection(ctx, o, id_test_func(ctx.prog))
 
 
 def _search_loop(g, pid):
